@@ -141,6 +141,10 @@ def extract(repo, ci):
         if o is obj:
             if repo.lookup_method(ci, attr) is not None or repo.lookup_method(ci, ci.mangle(attr)) is not None:
                 return NotImplemented
+            from ..xeval import _Frame
+
+            if attr in o.attrs or ci.mangle(attr) in o.attrs or _Frame._init_literal(None, o, ci.mangle(attr))[0] or _Frame._init_literal(None, o, attr)[0]:
+                return NotImplemented  # a field the constructor initialises with a literal (a lazy memo starts empty)
             return SE(attr.lstrip("_"))
         return NotImplemented
 
@@ -163,6 +167,9 @@ def run(ctx):
 
     ctx.attempt(_e2e.dynamics_rule, ctx, 'R18.E1')
     ctx.attempt(_e2e.hyperelastic_rule, ctx, 'R18.E2')
+    from ..shared import lazy_field_memo_rule as _lazy_field_memo_rule
+
+    ctx.attempt(_lazy_field_memo_rule, ctx, 'R18.22', lambda ci: ci.module.name.startswith('EasyFEA.Models'), 1)
     ctx.attempt(kinematics_rule, ctx)
     from .c18ops import operator_rule, surface_operator_rule, clenshaw_curtis_rule, adaptive_bookkeeping_rule
 
